@@ -39,13 +39,15 @@ Fixpoint iprefixb (p s : str) : bool :=
   end.
 
 (* line.rfind(key, lo, hi): highest i with lo <= i, i+len(key) <= min(hi,len(line)), line[i:i+len(key)] = key
-   (key non-empty).  Forward scan keeping the last admissible match. *)
-Fixpoint rfind_go (key s : str) (pos lo hi : nat) (best : option nat) : option nat :=
+   (key non-empty).  Forward scan keeping the last admissible match; `lo_rem`/`hi_rem` are the
+   distances lo-pos and hi-pos (truncated at 0), so each position costs O(len key). *)
+Definition is_zero (n : nat) : bool := match n with 0 => true | S _ => false end.
+Fixpoint rfind_go (key s : str) (pos lo_rem hi_rem : nat) (best : option nat) : option nat :=
   match s with
   | [] => best
   | _ :: r =>
-      let best' := if (lo <=? pos) && (pos + length key <=? hi) && prefixb key s then Some pos else best in
-      rfind_go key r (S pos) lo hi best'
+      let best' := if is_zero lo_rem && (length key <=? hi_rem) && prefixb key s then Some pos else best in
+      rfind_go key r (S pos) (pred lo_rem) (pred hi_rem) best'
   end.
 Definition rfind (key s : str) (lo hi : nat) : option nat := rfind_go key s 0 lo hi None.
 
@@ -163,3 +165,14 @@ Definition long_lines (L : nat) (t : str) : bool :=
 Definition all_types : list ltype := [Statement; Omp; Acc; CommentT; Unknown].
 Definition min_limit : nat :=
   fold_right Nat.max 0 (map (fun t => length (cont_start t) + length (cont_end t)) all_types).
+
+(* "a break point exists": every remainder of the line that is still too long has a key
+   occurrence inside the continuation window (decidable; premise of never_fails_partial) *)
+Fixpoint suffixes (l : str) : list str :=
+  l :: match l with [] => [] | _ :: r => suffixes r end.
+Definition has_bp (o : option nat) : bool := match o with Some _ => true | None => false end.
+Definition breakable (L : nat) (l : str) : bool :=
+  let t := line_type l in
+  forallb (fun s => (length s + length (cont_start t) <=? L)
+                    || has_bp (find_break_point s (L - length (cont_end t) - length (cont_start t)) (key_list t)))
+          (suffixes l).
